@@ -61,6 +61,7 @@ M = [
     ('zip-late-input-bounded-deque', 'streamz/core.py', "        self.buffers[upstream] = deque()\n        super(zip, self)._add_upstream(upstream)", "        self.buffers[upstream] = deque(maxlen=self.maxsize)\n        super(zip, self)._add_upstream(upstream)", ['C15']),
     ('interval-string-whole-seconds', 'streamz/core.py', "        interval = pd.Timedelta(interval).total_seconds()", "        interval = pd.Timedelta(interval).seconds", ['C13']),
     ('interval-numpy-int-as-nanoseconds', 'streamz/core.py', "        interval = interval.item()\n", "        import pandas as pd\n        interval = pd.Timedelta(interval).total_seconds()\n", ['C13']),
+    ('kafka-default-reset-on-callers-dict', 'streamz/sources.py', "            self.consumer_params['auto.offset.reset'] = 'latest'", "            consumer_params['auto.offset.reset'] = 'latest'", ['C09']),
     ('gather-no-wait-downstream', 'streamz/dask.py', "        result2 = yield self._emit(result, metadata=metadata)", "        result2 = self._emit(result, metadata=metadata)", ['C20']),
 ]
 
